@@ -116,7 +116,8 @@ def _judge_forked(ck, errc, opts, funcs, nearly, prefix, label, runner, compile_
         fns = [dict(n="fall_%d" % k, params=[], ret=ddp.TNONE, body=[{"k": "block", "body": semgen.batch_program([c], "x")["main"][0]["body"]}]) for k, c in enumerate(g)]
         P = dict(structs=list(semgen.STRUCTS.values()), funcs=list(funcs) + fns, main=list(nearly), nearly=len(nearly), typedecls=list(semgen.TYPEDECLS_SEM))
         src = ddp.render(P, extern_funcs={f["n"] for f in fns})
-        return g, fns, src, ddp.run_forked(runner, src, len(g), opts=opts, asan=asan)
+        # with globals in the program the case runs at the end of the module's top level (afterwards the globals are released)
+        return g, fns, src, ddp.run_forked(runner, src, len(g), opts=opts, asan=asan, dispatch=bool(nearly))
     recs, meta = [], []
     done = []
     while groups:
